@@ -288,7 +288,7 @@ def check_planner(case, rec=None):
         raise Violation("two calls of deliberate on the same bundle differ", case, "planner-nondeterministic")
     prob = plan_problem(list(p1.ops), s, lo, hi, eps, b, cap, tokens=case["tokens"])
     if prob:
-        raise Violation(f"planner: {prob[1]}", case, prob[0])
+        raise Violation(prob[1], case, prob[0])
 
     # monotone intent rank in s_max
     if case["sim"] == "present":
@@ -486,7 +486,7 @@ def check_chain(case, rec=None):
                 raise Violation(f"configured t3.policy {case['t3'].get('policy')} is ignored by the turn's planner (bundle cfg "
                                 f"carries no policy block; built-in 0.8/0.4/0.10 used): {prob[1]}", case, "cfg-thresholds-ignored")
         else:
-            raise Violation(f"chain planner: {prob[1]}", case, prob[0])
+            raise Violation(f"planner on the real bundle: {prob[1]}", case, prob[0])
 
     db = make_dialog_bundle(ctx, state, t1, t2, plan)
     dsnap = copy.deepcopy(db)
@@ -898,9 +898,9 @@ def check_sanitiser(case, rec=None):
     except BaseException as e:
         if isinstance(e, (KeyboardInterrupt, SystemExit)):
             raise
-        raise Violation(f"sanitiser raised {type(e).__name__}: {str(e)[:200]}", case, f"san-raises-{type(e).__name__}")
+        raise Violation(f"sanitiser raised {type(e).__name__}: {ascii(str(e))[:200]}", case, f"san-raises-{type(e).__name__}")
     if not (isinstance(res, tuple) and len(res) == 2 and isinstance(res[0], bool)):
-        raise Violation(f"sanitiser returned {res!r}, not (bool, obj_or_reason)", case, "san-shape")
+        raise Violation(f"sanitiser returned {ascii(res)[:200]}, not (bool, obj_or_reason)", case, "san-shape")
     ok, obj = res
     if parse_and_validate(text, PLANNER_V1) != res:
         raise Violation("sanitiser gave two different answers for the same text", case, "san-nondeterministic")
@@ -920,18 +920,18 @@ def check_sanitiser(case, rec=None):
                 any((not isinstance(x, str)) or not (1 <= len(x) <= ITEM_MAX) or not x.strip() for x in obj["plan"]) or \
                 not isinstance(obj["rationale"], str) or not (1 <= len(obj["rationale"]) <= RAT_MAX) or \
                 not isinstance(obj["reflection"], bool):
-            raise Violation(f"accepted result violates the documented caps: {str(obj)[:300]}", case, "san-accept-caps")
+            raise Violation(f"accepted result violates the documented caps: {ascii(obj)[:300]}", case, "san-accept-caps")
         src, dup, _f = ref
         if not dup:
             if set(src) - {"plan", "rationale", "reflection"} or obj["plan"] != src.get("plan") or obj["rationale"] != src.get("rationale"):
-                raise Violation(f"accepted result {str(obj)[:200]} is not the object in the text {str(src)[:200]}", case, "san-accept-differs")
+                raise Violation(f"accepted result {ascii(obj)[:200]} is not the object in the text {ascii(src)[:200]}", case, "san-accept-differs")
             if isinstance(src.get("reflection", False), bool) and obj["reflection"] != src.get("reflection", False):
                 raise Violation("reflection flag altered", case, "san-accept-differs")
     else:
         if not isinstance(obj, str):
             raise Violation(f"rejection reason is {type(obj).__name__}, not a string", case, "san-reason-type")
     if expect is True and not ok:
-        raise Violation(f"constructed-valid planner text rejected: {obj}", case, "san-reject-valid")
+        raise Violation(f"constructed-valid planner text rejected: {ascii(obj)[:200]}", case, "san-reject-valid")
     if expect is False and ok:
         raise Violation(f"constructed-invalid planner text ({case.get('muts')}) accepted", case, "san-accept-invalid")
     if rec is not None:
@@ -941,7 +941,7 @@ def check_sanitiser(case, rec=None):
         labels = ["accepted" if ok else "rejected", f"expect={expect}"] + [f"mut:{m}" for m in muts] + \
                  (["core-json"] if core_json else []) + (["fenced-accepted"] if ok and ref and ref[2] else [])
         rec.case(nontrivial=nt, dig=digest(case["text"] if isinstance(case["text"], str) else repr(case["text"])) if nt else None,
-                 labels=labels, sample={"muts": muts, "ok": ok, "reason": None if ok else obj,
+                 labels=labels, sample={"muts": muts, "ok": ok, "reason": None if ok else ascii(obj)[:120],
                                         "text": ascii(text)[:160]} if nt else None)
 
 
